@@ -52,6 +52,7 @@ structure VarDecl where
 structure Store where
   vars : List (String × Nat × Int)        -- name, bits, value
   arrs : List (String × Nat × List Int)   -- name, element bits (8 or 16), elements
+  sgn : List String := []                 -- names of the signed variables / arrays (values are stored as bit patterns)
   deriving Repr, Inhabited
 
 inductive Flow where
@@ -64,8 +65,12 @@ inductive Res (α : Type) where
   | fuel
   deriving Repr
 
+/-- a stored bit pattern read as a signed / unsigned value -/
+def asValue (signed : Bool) (bits : Nat) (v : Int) : Int :=
+  if signed && v ≥ 2 ^ (bits - 1) then v - 2 ^ bits else v
+
 def Store.getVar (s : Store) (x : String) : Option (Nat × Int) :=
-  (s.vars.find? (·.1 == x)).map (·.2)
+  (s.vars.find? (·.1 == x)).map fun p => (p.2.1, asValue (s.sgn.contains x) p.2.1 p.2.2)
 
 def Store.setVar (s : Store) (x : String) (v : Int) : Option Store :=
   if s.vars.any (·.1 == x) then
@@ -74,7 +79,7 @@ def Store.setVar (s : Store) (x : String) (v : Int) : Option Store :=
 
 def Store.getArr (s : Store) (a : String) (i : Int) : Option Int :=
   match s.arrs.find? (·.1 == a) with
-  | some (_, _, vs) => if 0 ≤ i && i < vs.length then vs[i.toNat]? else none
+  | some (_, b, vs) => if 0 ≤ i && i < vs.length then (vs[i.toNat]?).map (asValue (s.sgn.contains a) b) else none
   | none => none
 
 def Store.arrBits (s : Store) (a : String) : Nat :=
